@@ -111,6 +111,32 @@ def parallel_commands(codec):
     return _COMMANDS[codec]
 
 
+_REF = {}
+
+
+def reference(codec):
+    """The emitted worker commands and the serial tree of one corpus column,
+    computed once per process from pristine global tables; records a failure of
+    either real CLI run and any mutation of the library's global tables."""
+    from sim import core as _core
+
+    if codec not in _REF:
+        ref = {"cmds": None, "serial": None, "error": None, "mutated": []}
+        _core.restore_global_tables() if _core._PRISTINE else _core.global_tables_digest()
+        before = _core.global_tables_digest()
+        try:
+            ref["cmds"] = parallel_commands(codec)
+            ref["serial"] = serial_tree(codec)
+        except Exception as e:  # noqa: BLE001
+            ref["error"] = e
+        after = _core.global_tables_digest()
+        if after != before:
+            ref["mutated"] = sorted(n for n in after if after[n] != before.get(n))
+            _core.restore_global_tables()
+        _REF[codec] = ref
+    return _REF[codec]
+
+
 def run_tasks(codes, policy, fs=None):
     """Run worker commands as baton tasks on a fresh SimFS."""
     import logging
@@ -185,6 +211,7 @@ POLICIES = ["random", "rtc", "rtc", "pct", "pct", "coarse", "coarse", "bursty", 
 class C24(Spec):
     prop = "C24"
     sim = "C"
+    guard_globals = True
     title = "Test case generation is deterministic and schedule-independent"
     quick_runs = 160
     thorough_runs = 6000
@@ -237,13 +264,10 @@ class C24(Spec):
                 "serial_too": rng.random() < 0.5,
             }
         codec = CODECS[derive_seed(self.verif_seed, "C-codec", self.prop, idx // 5) % len(CODECS)] if rng.random() < 0.8 else "minimal"
-        ncmd = len(parallel_commands(codec))
+        # no repository code runs while generating: the task subset is named by
+        # (size, seed) and resolved against the emitted command list at run time
         r = rng.random()
-        if r < 0.25:
-            subset = list(range(ncmd))
-        else:
-            k = rng.choice([2, 2, 3, 4, 6, 8])
-            subset = sorted(rng.sample(range(ncmd), min(k, ncmd)))
+        take = None if r < 0.25 else rng.choice([2, 2, 3, 4, 6, 8])
         kind = rng.choice(POLICIES)
         params = {}
         if kind == "bursty":
@@ -252,8 +276,16 @@ class C24(Spec):
             params["p"] = rng.choice([0.1, 0.5, 1.0])
         if kind == "pct":
             d = rng.choice([1, 2, 3, 5])
-            params["change_points"] = sorted(rng.randrange(1, 2500 * len(subset)) for _ in range(d))
-        return {"codec": codec, "tasks": subset, "policy": kind, "params": params, "sched_seed": rng.randrange(1 << 48)}
+            params["change_points"] = sorted(rng.randrange(1, 2500 * (take or 26)) for _ in range(d))
+        return {"codec": codec, "take": take, "take_seed": rng.randrange(1 << 30), "policy": kind, "params": params, "sched_seed": rng.randrange(1 << 48)}
+
+    @staticmethod
+    def resolve_tasks(case, ncmd):
+        if "tasks" in case:
+            return [t for t in case["tasks"] if t < ncmd]
+        if case.get("take") is None:
+            return list(range(ncmd))
+        return sorted(random.Random(case["take_seed"]).sample(range(ncmd), min(case["take"], ncmd)))
 
     def execute_fresh(self, case):
         stats = Counter()
@@ -272,8 +304,11 @@ class C24(Spec):
             if rc != 0:
                 return viol("C24/fresh/parallel-emission-failed", "cli --parallel failed in a fresh interpreter (hash seed %d): rc=%r %s" % (hs[0], rc, se[-400:]))
             codes = [l.split(" ", 1)[1].strip() for l in so.splitlines() if l.startswith("vc2-test-case-generator-worker ")]
-            if len(codes) != len(parallel_commands(codec)):
-                return viol("C24/fresh/command-count", "%d commands emitted under hash seed %d, %d in-process" % (len(codes), hs[0], len(parallel_commands(codec))))
+            ref = reference(codec)
+            if ref["error"] is not None or ref["mutated"]:
+                return viol("C24/fresh/reference-unavailable", "in-process reference run failed or mutated global tables: %r %r" % (ref["error"], ref["mutated"]))
+            if len(codes) != len(ref["cmds"]):
+                return viol("C24/fresh/command-count", "%d commands emitted under hash seed %d, %d in-process" % (len(codes), hs[0], len(ref["cmds"])))
             order = list(range(len(codes)))
             random.Random(case["order_seed"]).shuffle(order)
             g = case["groups"]
@@ -284,7 +319,7 @@ class C24(Spec):
                 if rc != 0:
                     return viol("C24/fresh/worker-failed", "worker commands failed in a fresh interpreter (hash seed %d): %s" % (hs[(k + 1) % len(hs)], se[-600:]))
             tree = real_tree(out)
-            serial = serial_tree(codec)
+            serial = ref["serial"]
             events.append(("tree", tree_digest(tree), len(tree)))
             if tree != serial:
                 diff = sorted(p for p in set(tree) | set(serial) if tree.get(p) != serial.get(p))[:6]
@@ -307,9 +342,14 @@ class C24(Spec):
         """Replace the seeded policy by the explicit schedule it produced."""
         if "schedule" in case or case.get("fresh"):
             return case
-        codes = [parallel_commands(case["codec"])[i] for i in case["tasks"]]
+        ref = reference(case["codec"])
+        if ref["cmds"] is None or ref["mutated"] or ref["error"] is not None:
+            return case
+        cmds = ref["cmds"]
+        tasks = self.resolve_tasks(case, len(cmds))
+        codes = [cmds[i] for i in tasks]
         _fs, baton, _ = run_tasks(codes, Policy(case["policy"], random.Random(case["sched_seed"]), case["params"]))
-        return {"codec": case["codec"], "tasks": case["tasks"], "schedule": baton.trace, "from_policy": case["policy"]}
+        return {"codec": case["codec"], "tasks": tasks, "schedule": baton.trace, "from_policy": case["policy"]}
 
     def shrink(self, case):
         if case.get("fresh"):
@@ -342,7 +382,16 @@ class C24(Spec):
             return self.execute_fresh(case)
         stats = Counter()
         codec = case["codec"]
-        cmds = parallel_commands(codec)
+        ref = reference(codec)
+        if ref["error"] is not None:
+            e = ref["error"]
+            return Outcome(VIOLATION, [("case", codec), ("reference-run-failed", type(e).__name__)], sig=exc_sig("C24/reference-run-failed", e),
+                           detail="the real 'vc2-test-case-generator' (--parallel emission or serial run) failed for corpus column %s:\n%s" % (codec, short_tb(e) if not isinstance(e, HarnessError) else str(e)), stats=stats, nontrivial=True, key="%s|reference-failed" % codec)
+        if ref["mutated"]:
+            return Outcome(VIOLATION, [("case", codec), ("reference-run-mutated", ref["mutated"])], sig="C24/serial-run-mutated-global-table/%s" % ",".join(ref["mutated"]),
+                           detail="the serial run for corpus column %s changed the library's process-global table(s) %s: later generators/configurations in the same process see different tables than fresh worker processes do" % (codec, ", ".join(ref["mutated"])), stats=stats, nontrivial=True, key="%s|reference-mutated" % codec)
+        cmds = ref["cmds"]
+        case = dict(case, tasks=self.resolve_tasks(case, len(cmds)))
         codes = [cmds[i] for i in case["tasks"]]
         if "schedule" in case:
             policy = ExplicitPolicy(case["schedule"])
@@ -353,7 +402,7 @@ class C24(Spec):
         fs, baton, excs = run_tasks(codes, policy)
         tree = rel_tree(fs, "/sim/out")
         sched_digest = hashlib.sha256(repr(baton.trace).encode()).hexdigest()[:16]
-        events = [("case", codec, case["tasks"], pname), ("schedule", sched_digest, baton.step, baton.switches), ("tree", tree_digest(tree), len(tree))]
+        events = [("case", codec, list(case["tasks"]), pname), ("schedule", sched_digest, baton.step, baton.switches), ("tree", tree_digest(tree), len(tree))]
         stats["policy:" + pname] += 1
         stats["yield_points"] += baton.step
         stats["context_switches"] += baton.switches
@@ -372,24 +421,24 @@ class C24(Spec):
         if failed:
             t, e = sorted(failed.items())[0]
             return viol(exc_sig("C24/task-raised", e), "worker task %d (command #%d of %s) raised under schedule %s:\n%s" % (t, case["tasks"][t], codec, sched_digest, short_tb(e)))
-        serial = serial_tree(codec)
+        serial = ref["serial"]
         if full:
-            ref = serial
+            want = serial
             refname = "serial run"
         else:
             sfs, _b, sexcs = run_tasks(codes, ExplicitPolicy([]))
             if any(e is not None for e in sexcs.values()):
                 e = [e for e in sexcs.values() if e is not None][0]
                 return viol(exc_sig("C24/task-raised-sequentially", e), "worker task raised even when run alone in order:\n%s" % short_tb(e))
-            ref = rel_tree(sfs, "/sim/out")
+            want = rel_tree(sfs, "/sim/out")
             refname = "same commands run one after another"
-            for p, b in ref.items():
+            for p, b in want.items():
                 if serial.get(p) != b:
                     return viol("C24/sequential-subset-differs-from-serial", "file %s written by the worker commands differs from (or is missing in) the serial run" % p)
-        if tree != ref:
-            only_a = sorted(set(tree) - set(ref))[:5]
-            only_b = sorted(set(ref) - set(tree))[:5]
-            diff = sorted(p for p in set(tree) & set(ref) if tree[p] != ref[p])[:5]
+        if tree != want:
+            only_a = sorted(set(tree) - set(want))[:5]
+            only_b = sorted(set(want) - set(tree))[:5]
+            diff = sorted(p for p in set(tree) & set(want) if tree[p] != want[p])[:5]
             return viol(
                 "C24/tree-differs",
                 "tree after the scheduled run differs from the %s: extra=%r missing=%r different=%r (schedule %s, %d switches)" % (refname, only_a, only_b, diff, sched_digest, baton.switches),
